@@ -94,6 +94,11 @@ func (p *Prog) Run(bs map[string]interface{}) Outcome {
 			} else {
 				cur[op.K] = 1.0
 			}
+		case "calc":
+			// a value the script leaves to be computed when it is read
+			// (an accessor property): whoever takes the result over gets
+			// the computed number
+			cur[op.K] = 1999000.0
 		case "push":
 			if a, ok := cur[op.K].([]interface{}); ok {
 				na := append(append([]interface{}{}, a...), jsongen.Copy(op.V))
@@ -162,6 +167,10 @@ func (p *Prog) Run(bs map[string]interface{}) Outcome {
 			return Outcome{Kind: "null", Emitted: emitted}
 		case "returnScalar":
 			return Outcome{Kind: "fail", Why: "not bindings"}
+		case "returnTrap":
+			// the script's result cannot be taken over: reading one of
+			// its properties throws
+			return Outcome{Kind: "fail", Why: "result cannot be exported"}
 		case "acceptIf":
 			if !accept(cur[op.K], op.Rel, op.V) {
 				return Outcome{Kind: "null", Emitted: emitted}
@@ -228,6 +237,12 @@ func (p *Prog) ES() string {
 			sb.WriteString("bs = {};\n")
 		case "inc":
 			fmt.Fprintf(&sb, "bs[%s] = (typeof bs[%s] === 'number') ? bs[%s] + 1 : 1;\n", k, k, k)
+		case "calc":
+			// (the bindings the script is given are a host object, on
+			// which no accessor can be defined: go on with a script
+			// object that has the same properties)
+			sb.WriteString("var nbs = {}; for (var p in bs) { nbs[p] = bs[p]; } bs = nbs;\n")
+			fmt.Fprintf(&sb, "Object.defineProperty(bs, %s, {enumerable: true, configurable: true, get: function() { var s = 0; for (var i = 0; i < 2000; i++) { s += i; } return s; }, set: function(v) { Object.defineProperty(this, %s, {value: v, writable: true, enumerable: true, configurable: true}); }});\n", k, k)
 		case "push":
 			fmt.Fprintf(&sb, "bs[%s] = Array.isArray(bs[%s]) ? bs[%s].concat([%s]) : [%s];\n", k, k, k, js(op.V), js(op.V))
 		case "copy":
@@ -260,6 +275,8 @@ func (p *Prog) ES() string {
 			sb.WriteString("return null;\n")
 		case "returnScalar":
 			fmt.Fprintf(&sb, "return %s;\n", js(op.V))
+		case "returnTrap":
+			sb.WriteString("return Object.defineProperty({ok: 1}, \"trap\", {enumerable: true, get: function() { throw new Error(\"trap\"); }});\n")
 		case "acceptIf":
 			switch op.Rel {
 			case "==":
@@ -405,7 +422,7 @@ func GenProg(t *rapid.T, o ProgOpts, label string) *Prog {
 	p := &Prog{}
 	for i := 0; i < n; i++ {
 		l := fmt.Sprintf("%s.%d", label, i)
-		kinds := []string{"set", "set", "del", "inc", "push", "keep", "fresh", "copy", "nestSet", "elemSet"}
+		kinds := []string{"set", "set", "del", "inc", "push", "keep", "fresh", "copy", "nestSet", "elemSet", "calc"}
 		if o.Emit {
 			kinds = append(kinds, "emit", "emit", "emitOf")
 		}
@@ -420,6 +437,8 @@ func GenProg(t *rapid.T, o ProgOpts, label string) *Prog {
 		switch kind {
 		case "set", "push":
 			p.Ops = append(p.Ops, Op{Op: kind, K: k, V: jsongen.Value(t, vo, l+".v")})
+		case "calc":
+			p.Ops = append(p.Ops, Op{Op: kind, K: k})
 		case "propSet":
 			p.Ops = append(p.Ops, Op{Op: kind, K: rapid.SampledFrom([]string{"p", "q", "s1", "s2", "lst", "fresh"}).Draw(t, l+".pk"),
 				Keys: []string{rapid.SampledFrom([]string{"k", "z", "nested"}).Draw(t, l+".pkk")}, V: jsongen.Scalar(t, jsongen.Opts{NoNull: true, Strs: vo.Strs, Nums: vo.Nums}, l+".pv")})
@@ -453,7 +472,7 @@ func GenProg(t *rapid.T, o ProgOpts, label string) *Prog {
 		}
 	}
 	if o.Fail > 0 && rapid.IntRange(1, 10).Draw(t, label+".f") <= o.Fail {
-		kinds := []string{"throw", "returnNull", "returnScalar", "outNaN"}
+		kinds := []string{"throw", "returnNull", "returnScalar", "outNaN", "returnTrap"}
 		if o.Spin {
 			kinds = append(kinds, "spin")
 		}
